@@ -1,7 +1,7 @@
 """C04 — a failing callback leaves a consistent, usable machine (systematic fault enumeration)."""
 import gen
 from engcorr import c01_monitor, c04_monitor, engine_check, fault_variants, split_ops
-from framework import lean_obligations
+from framework import lean_obligations, safe_probe
 
 PROFILE = gen.Profile(
     max_states=5, extra_trans=(1, 6), p_multi_event=0.3,
@@ -233,11 +233,11 @@ def run(ctx):
                             "was reached (a user exception escaped send); distinct = hash of scenario text")
     from framework import run_py_corpus
     ctx.coverage["corpus_programs"] = run_py_corpus(ctx)
-    ncases, pf = probe_property_callbacks()
+    ncases, pf = safe_probe(probe_property_callbacks, pair=True)
     ctx.coverage["property_callback_cases"] = ncases
     if pf:
         ctx.violation(ctx.write_replay("property_callbacks.txt", "\n".join(pf[:12]) + "\n"), pf[0])
-    ncases, of = probe_orphan_sibling(ctx.seed, 120 if ctx.tier == "quick" else 2000)
+    ncases, of = safe_probe(probe_orphan_sibling, ctx.seed, 120 if ctx.tier == "quick" else 2000, pair=True)
     ctx.coverage["orphan_sibling_cases"] = ncases
     if of:
         ctx.violation(ctx.write_replay("orphan_sibling.txt", "\n".join(of[:12]) + "\n"), of[0])
